@@ -29,6 +29,9 @@ type History struct {
 	// Mode: how loads travel to the model: "text" (raw text, default) or "stmts" (statement trees +
 	// Go's verdict on parser and builder as a flag)
 	Mode string `json:"mode,omitempty"`
+	// ReadsEverywhere: the read battery (readsOf) is put to the one value and to its shadow after
+	// EVERY operation, not only after refused loads and walks
+	ReadsEverywhere bool `json:"reads_everywhere,omitempty"`
 }
 
 func (h History) key() string {
@@ -880,4 +883,261 @@ func genNsHistory(r *rand.Rand, maxLen int) History {
 		late = late[:len(late)-1]
 	}
 	return buildOps(r, append(items, late...), maxLen, origin)
+}
+
+// refusedMulti builds a text of 2-4 top-level statements that add accepts one after the other
+// until the LAST one, which it refuses - so that the registrations of the earlier statements have
+// happened (a brand-new module, a newer revision that takes a bare name over, an older revision, a
+// submodule, the unrevisioned text of a name that has revisions only, a pending text of the set) and
+// must be withdrawn.  loaded: the accepted texts so far; pending: good texts not loaded yet.
+func refusedMulti(r *rand.Rand, loaded, pending []item) (Op, bool) {
+	if len(loaded) == 0 {
+		return Op{}, false
+	}
+	var heads []string
+	var text strings.Builder
+	var first string
+	usedZq, usedRev := false, map[string]bool{}
+	nHeads := 1 + r.Intn(3)
+	if nHeads == 3 && r.Intn(2) == 0 {
+		nHeads = 1
+	}
+	for k := 0; k < nHeads; k++ {
+		l := loaded[r.Intn(len(loaded))]
+		t := ""
+		kind := ""
+		switch c := r.Intn(8); {
+		case c == 0 && !usedZq:
+			usedZq = true
+			kind = "new-module"
+			t = "module zq {\n  namespace \"urn:zq\";\n  prefix zq;\n  container zqc { leaf q { type string; } }\n}\n"
+			if r.Intn(2) == 0 {
+				kind = "new-module-with-revision"
+				t = "module zq {\n  namespace \"urn:zq\";\n  prefix zq;\n  revision 2022-02-02;\n  leaf q { type string; }\n}\n"
+			}
+		case c == 1 && !usedZq:
+			// a brand-new module that augments a loaded one (never linked: the text is refused)
+			usedZq = true
+			var tgt *gen.Module
+			for _, x := range loaded {
+				if !x.mod.Sub && len(x.mod.Paths()) > 0 {
+					tgt = x.mod
+				}
+			}
+			if tgt == nil {
+				continue
+			}
+			kind = "new-module-augmenting"
+			t = fmt.Sprintf("module zq {\n  namespace \"urn:zq\";\n  prefix zq;\n  import %s { prefix zi; }\n  augment \"/zi:%s\" { leaf zqa { type string; } }\n}\n",
+				tgt.Name, tgt.Paths()[0].Names[0])
+		case c <= 4:
+			// a newer revision of a loaded module or submodule: it takes the bare name over
+			if usedRev[l.mod.Name] {
+				continue
+			}
+			usedRev[l.mod.Name] = true
+			m := *l.mod
+			m.Revisions = append(append([]string{}, l.mod.Revisions...), "2023-03-03")
+			nb := cloneNode(l.mod.Body)
+			if r.Intn(3) == 0 && len(nb.Kids) > 0 {
+				nb.Kids = nb.Kids[:len(nb.Kids)-1]
+			}
+			nb.Kids = append(nb.Kids, nd("leaf", "rv23", nd("type", "string")))
+			if r.Intn(5) == 0 && !m.Sub {
+				m.Namespace += ":moved"
+			}
+			m.Body = nb
+			kind = "newer-revision"
+			if m.Sub {
+				kind = "newer-submodule-revision"
+			}
+			t = m.Text()
+		case c == 5:
+			// an older revision: filed under name@revision only
+			if usedRev[l.mod.Name] || len(l.mod.Revisions) == 0 {
+				continue
+			}
+			usedRev[l.mod.Name] = true
+			m := *l.mod
+			m.Revisions = []string{"2001-01-01"}
+			m.Body = cloneNode(l.mod.Body)
+			kind = "older-revision"
+			t = m.Text()
+		case c == 6:
+			// a brand-new submodule of a loaded module
+			var owner *gen.Module
+			for _, x := range loaded {
+				if !x.mod.Sub {
+					owner = x.mod
+				}
+			}
+			if owner == nil || usedRev["zs"] {
+				continue
+			}
+			usedRev["zs"] = true
+			sm := &gen.Module{Name: "zs", Prefix: owner.Prefix, Sub: true, Owner: owner, ImportPrefix: map[*gen.Module]string{},
+				Body: nd("submodule", "zs", nd("container", "zsc", nd("leaf", "s", nd("type", "string"))))}
+			kind = "new-submodule"
+			t = sm.Text()
+		default:
+			// a pending good text of the set (an import or include somebody is waiting for)
+			if len(pending) == 0 {
+				continue
+			}
+			pi := pending[r.Intn(len(pending))]
+			if usedRev[pi.mod.Name] {
+				continue
+			}
+			usedRev[pi.mod.Name] = true
+			kind = "pending-text"
+			t = pi.text
+		}
+		if t == "" {
+			continue
+		}
+		if first == "" {
+			first = t
+		}
+		heads = append(heads, kind)
+		text.WriteString(t)
+	}
+	if len(heads) == 0 {
+		return Op{}, false
+	}
+	l := loaded[r.Intn(len(loaded))]
+	tail := ""
+	switch r.Intn(7) {
+	case 0, 1:
+		tail = "duplicate"
+		text.WriteString(l.text)
+	case 2:
+		tail = "head-again"
+		text.WriteString(first)
+	case 3:
+		tail = "non-module"
+		text.WriteString([]string{
+			"container ztrail {\n  leaf q { type string; }\n}\n",
+			"grouping ztrail {\n  leaf q { type string; }\n}\n",
+			"typedef ztrail {\n  type string;\n}\n",
+			"leaf ztrail {\n  type string;\n}\n"}[r.Intn(4)])
+	case 4:
+		tail = "at-name"
+		text.WriteString("module \"zz@1\" {\n  namespace \"urn:zz\";\n  prefix zz;\n}\n")
+	case 5:
+		tail = "submodule-at-name"
+		owner := l.mod
+		if owner.Sub {
+			owner = owner.Owner
+		}
+		text.WriteString(fmt.Sprintf("submodule \"zs@1\" {\n  belongs-to %s { prefix %s; }\n}\n", owner.Name, owner.Prefix))
+	default:
+		// the same revision of a loaded module under another body: a duplicate by name
+		tail = "duplicate-other-body"
+		m := *l.mod
+		m.Body = nd(l.mod.Body.Kw, l.mod.Body.Arg, nd("leaf", "zother", nd("type", "string")))
+		text.WriteString(m.Text())
+	}
+	return Op{Op: "load", Name: "refused-multi.yang", Text: text.String(), Fault: "multi:" + strings.Join(heads, "+") + "-then-" + tail}, true
+}
+
+// genRefusedHistory builds a history around a REFUSED text of several statements that comes after a
+// processing run, followed directly by reads: a generated set (submodules, augments, deviations,
+// choices, uses: the processed trees differ from a raw conversion) is loaded and processed; then,
+// once or twice: [a read or walk,] the refused text (refusedMulti), then reads of modules the text
+// mentioned and of modules it did not (Find on ms.Modules[name], answered by the model from the
+// finished Process, and - Go vs Go - the read battery on the shadow value), sometimes a walk;
+// sometimes a good text held back arrives afterwards (with reads before the next Process);
+// a final Process.  Half of these histories run the read battery after every operation.
+func genRefusedHistory(r *rand.Rand, maxLen int) History {
+	cfg := gen.Default()
+	cfg.MaxModules = 2
+	if r.Intn(3) == 0 {
+		cfg.MaxModules = 3
+	}
+	cfg.BadRate = 0.05
+	cfg.Revisions = r.Intn(2) == 0
+	set := gen.Generate(r, cfg)
+	var items []item
+	for _, m := range set.Mods {
+		items = append(items, item{name: m.FileName(), text: m.Text(), mod: m})
+	}
+	origin := "refused-multi"
+	if r.Intn(4) == 0 {
+		r.Shuffle(len(items), func(i, j int) { items[i], items[j] = items[j], items[i] })
+	}
+	// sometimes one text is held back: it is offered inside the refused text and / or arrives later
+	var pending []item
+	if len(items) > 1 && r.Intn(3) == 0 {
+		k := r.Intn(len(items))
+		pending = append(pending, items[k])
+		items = append(items[:k:k], items[k+1:]...)
+		origin += "+held-back"
+	}
+	h := History{Origin: origin, ReadsEverywhere: r.Intn(2) == 0}
+	if r.Intn(12) == 0 {
+		h.IgnoreCircular = true
+	}
+	if r.Intn(12) == 0 {
+		h.IgnoreNotSupported = true
+	}
+	budget := maxLen + 2 // these histories may be a little longer than the general ones: the reads are cheap
+	if len(items) > 3 {
+		// several texts as one accepted load, to leave room
+		txt := ""
+		for _, it := range items {
+			txt += it.text
+		}
+		h.Ops = append(h.Ops, Op{Op: "load", Name: "all-in-one.yang", Text: txt})
+	} else {
+		for _, it := range items {
+			h.Ops = append(h.Ops, Op{Op: "load", Name: it.name, Text: it.text})
+		}
+	}
+	loaded := append([]item{}, items...)
+	h.Ops = append(h.Ops, Op{Op: "process"})
+	read := func() {
+		l := loaded[r.Intn(len(loaded))]
+		if l.mod.Sub && l.mod.Owner != nil {
+			// reads go through ms.Modules: the owner's tree holds the submodule's nodes
+			h.Ops = append(h.Ops, Op{Op: "read", Key: l.mod.Owner.Name, Path: readPath(r, l.mod)})
+			return
+		}
+		h.Ops = append(h.Ops, Op{Op: "read", Key: l.mod.Name, Path: readPath(r, l.mod)})
+	}
+	rounds := 1 + r.Intn(2)
+	for k := 0; k < rounds && len(h.Ops) < budget-3; k++ {
+		switch r.Intn(4) {
+		case 0:
+			read()
+		case 1:
+			h.Ops = append(h.Ops, Op{Op: "walk"})
+		}
+		op, ok := refusedMulti(r, loaded, pending)
+		if !ok {
+			break
+		}
+		h.Ops = append(h.Ops, op)
+		for n := 1 + r.Intn(2); n > 0 && len(h.Ops) < budget-1; n-- {
+			read()
+		}
+		if r.Intn(4) == 0 && len(h.Ops) < budget-1 {
+			h.Ops = append(h.Ops, Op{Op: "walk"})
+		}
+		if len(pending) > 0 && r.Intn(2) == 0 && len(h.Ops) < budget-2 {
+			// the held-back text arrives on its own, is read before the next Process
+			h.Ops = append(h.Ops, Op{Op: "load", Name: pending[0].name, Text: pending[0].text})
+			loaded = append(loaded, pending[0])
+			pending = nil
+			if r.Intn(2) == 0 {
+				read()
+			}
+		}
+		if k+1 < rounds && r.Intn(2) == 0 {
+			h.Ops = append(h.Ops, Op{Op: "process"})
+		}
+	}
+	if h.Ops[len(h.Ops)-1].Op != "process" {
+		h.Ops = append(h.Ops, Op{Op: "process"})
+	}
+	return h
 }
